@@ -67,29 +67,29 @@ Definition running_leaves : sexpr -> ost -> list nat := lv true (fun _ => true).
    keeps its node (it still owns its block): a node all of whose children are done *)
 Fixpoint done_st (st : ost) : Prop :=
   match st with
-  | OFin | OCompl _ _ | OLeaf true _ | OStore _ _ _ => True
+  | OFin | OCompl _ _ | OLeaf true _ => True
   | ONode _ a b => done_st a /\ done_st b
   | _ => False
   end.
 Lemma inert_done st : inert st -> done_st st.
 Proof. destruct st; simpl; tauto. Qed.
 
-Lemma conc_reap_none k i ns c sc tr : conc_reap k i ns c (sc, tr, None) = (sc, tr, None).
-Proof. reflexivity. Qed.
+Lemma conc_reap_none k c sc tr : conc_reap k c (sc, tr, None) = (sc, tr, None).
+Proof. destruct k; reflexivity. Qed.
 
 Lemma stop_done e : forall st cx, done_st st -> exists st', stop e st cx = (st', [], None) /\ done_st st'.
 Proof.
   induction e as [v|x| |n|id|id|id c|id lvl| |idc|k s IH|k a IHa b IHb]; intros st cx Hd;
-    try (exists st; split; [|exact Hd]; destruct st as [|cc ss| | | |? ? ?]; try reflexivity;
+    try (exists st; split; [|exact Hd]; destruct st as [|cc ss| | |]; try reflexivity;
          try (destruct cc; [reflexivity|contradiction Hd]); fail).
-  - destruct st as [|cc ss|ns sc sb|sa sb|vv|? ? ?]; try contradiction Hd;
+  - destruct st as [|cc ss|ns sc sb|sa sb|vv]; try contradiction Hd;
       try (eexists; split; [reflexivity|exact Hd]).
     destruct Hd as [Hc Hb]. destruct (is_unst k) eqn:Hk.
     + apply is_unst_true in Hk. subst k. rewrite stop_un_unst. eexists. split; [reflexivity|]. split; assumption.
     + rewrite stop_un by exact Hk. unfold stop_un_body.
       destruct (un_own k && own_stop ns)%bool; [eexists; split; [reflexivity|]; split; [assumption|exact I]|].
       destruct (IH sc cx Hc) as (sc' & E & Hd'). rewrite E. eexists. split; [reflexivity|]. split; [assumption|exact I].
-  - destruct st as [|cc ss|ns sa sb|sa0 sb0|vv|? ? ?]; try contradiction Hd;
+  - destruct st as [|cc ss|ns sa sb|sa0 sb0|vv]; try contradiction Hd;
       try (eexists; split; [reflexivity|exact Hd]).
     destruct Hd as [Ha Hb]. rewrite stop_bin.
     destruct (IHa sa cx Ha) as (sa' & Ea & Ha'). destruct (IHb sb cx Hb) as (sb' & Eb & Hb').
@@ -115,14 +115,14 @@ Lemma leafev_done e : forall st id o cx, done_st st ->
   exists st', leafev e st id o cx = ((st', [], None), false) /\ done_st st'.
 Proof.
   induction e as [v|x| |n|i|i|i c|i lvl| |idc|k s IH|k a IHa b IHb]; intros st id o cx Hd;
-    try (exists st; split; [|exact Hd]; destruct st as [|cc ss| | | |? ? ?]; try reflexivity; try contradiction Hd;
+    try (exists st; split; [|exact Hd]; destruct st as [|cc ss| | |]; try reflexivity; try contradiction Hd;
          try (destruct cc; [reflexivity|contradiction Hd]); fail).
-  - destruct st as [|cc ss|ns sc sb|sa sb|vv|? ? ?]; try contradiction Hd;
+  - destruct st as [|cc ss|ns sc sb|sa sb|vv]; try contradiction Hd;
       try (eexists; split; [reflexivity|exact Hd]).
     destruct Hd as [Hc Hb]. rewrite leafev_un. unfold leafev_un_body, child_ev.
     destruct (IH sc id (un_in k o) cx Hc) as (sc' & E & Hd'). rewrite E. cbn [thrown].
     rewrite fired_nil, andb_false_r. eexists. split; [reflexivity|]. split; [assumption|exact I].
-  - destruct st as [|cc ss|ns sa sb|sa0 sb0|vv|? ? ?]; try contradiction Hd;
+  - destruct st as [|cc ss|ns sa sb|sa0 sb0|vv]; try contradiction Hd;
       try (eexists; split; [reflexivity|exact Hd]).
     destruct Hd as [Ha Hb]. destruct (is_seq k) eqn:Hk.
     + rewrite leafev_bin_seq by exact Hk. destruct (ph ns).
@@ -145,7 +145,7 @@ Qed.
 
 Lemma lv_inert c p e : forall st, done_st st -> lv c p e st = [].
 Proof.
-  induction e; intros st Hd; destruct st as [|cc ss|ns sa sb|sa0 sb0|vv|? ? ?]; simpl in *; try contradiction;
+  induction e; intros st Hd; destruct st as [|cc ss|ns sa sb|sa0 sb0|vv]; simpl in *; try contradiction;
     try reflexivity; try (destruct cc; [reflexivity|contradiction]).
   - destruct Hd as [Hc _]. rewrite (IHe _ Hc). destruct (is_unst k && negb c)%bool; reflexivity.
   - destruct Hd as [Ha Hb]. rewrite (IHe1 _ Ha), (IHe2 _ Hb). destruct (is_seq k); [destruct (ph ns)|]; reflexivity.
@@ -168,7 +168,7 @@ Proof. intros H1. simpl. rewrite H1. reflexivity. Qed.
 Lemma lv_split c p e : forall st id,
   In id (lv c (fun _ => true) e st) -> In id (lv c p e st) \/ In id (lv c (fun s => negb (p s)) e st).
 Proof.
-  induction e; intros st i H; destruct st as [|cc s|ns sa sb|sa sb|vv|? ? ?]; simpl in *; try contradiction.
+  induction e; intros st i H; destruct st as [|cc s|ns sa sb|sa sb|vv]; simpl in *; try contradiction.
   - destruct cc; [contradiction|]. destruct (p s); simpl; auto.
   - destruct cc; [contradiction|]. destruct (p s); simpl; auto.
   - destruct cc; [contradiction|]. destruct (p s); simpl; auto.
@@ -180,7 +180,7 @@ Qed.
 
 Lemma lv_ids c p e : forall st id, In id (lv c p e st) -> In id (leaf_ids e).
 Proof.
-  induction e; intros st i H; destruct st as [|cc s|ns sa sb|sa sb|vv|? ? ?]; simpl in *; try contradiction.
+  induction e; intros st i H; destruct st as [|cc s|ns sa sb|sa sb|vv]; simpl in *; try contradiction.
   - destruct cc; [contradiction|]. destruct (p s); simpl in *; auto.
   - destruct cc; [contradiction|]. destruct (p s); simpl in *; auto.
   - destruct cc; [contradiction|]. destruct (p s); simpl in *; auto.
@@ -227,7 +227,7 @@ Fixpoint live (tok : bool) (e : sexpr) (st : ost) {struct e} : Prop :=
 
 Lemma live_not_done e : forall tok st, live tok e st -> done_st st -> False.
 Proof.
-  induction e; intros tok st HL Hd; destruct st as [|cc ss|ns sa sb|sa0 sb0|vv|? ? ?]; simpl in *; try contradiction;
+  induction e; intros tok st HL Hd; destruct st as [|cc ss|ns sa sb|sa0 sb0|vv]; simpl in *; try contradiction;
     try (destruct HL as [-> _]; contradiction).
   - destruct HL as (_ & _ & HL). destruct Hd as [Hd _]. exact (IHe _ _ HL Hd).
   - destruct HL as [_ HL]. destruct Hd as [Ha Hb]. destruct (is_seq k).
@@ -256,7 +256,7 @@ Proof. intros H1. simpl. rewrite H1. reflexivity. Qed.
 Lemma live_true_unseen e : forall st, live true e st -> reach_unseen e st = [].
 Proof.
   unfold reach_unseen.
-  induction e; intros st H; destruct st as [|cc ss|ns sa sb|sa sb|vv|? ? ?]; simpl in *; try contradiction; try reflexivity.
+  induction e; intros st H; destruct st as [|cc ss|ns sa sb|sa sb|vv]; simpl in *; try contradiction; try reflexivity.
   - destruct H as [-> ->]. reflexivity.
   - destruct H as [-> ->]. reflexivity.
   - destruct H as [-> ->]. reflexivity.
@@ -367,16 +367,7 @@ Definition LeafevL (e : sexpr) : Prop := forall tok cx st id o st' tr r hit,
 Lemma dtor_nostart c st : Forall no_start (dtor c st).
 Proof. eapply Forall_impl; [|apply dtor_only]. intros t. destruct t; simpl; tauto. Qed.
 
-Lemma trs_ctor_ev e tok h : trs e tok (ctor_ev h).
-Proof. apply trs_nostart. destruct h as [[? ?]|]; repeat constructor. Qed.
-Lemma trs_dtor_ev e tok h : trs e tok (dtor_ev h).
-Proof. apply trs_nostart. destruct h as [[? ?]|]; repeat constructor. Qed.
-Lemma trs_dtor1 e tok h c st : trs e tok (dtor1 h c st).
-Proof. unfold dtor1. apply trs_app; [apply trs_ctor_ev|apply trs_dtor]. Qed.
-Lemma resL_wrap tok e h a b o : resL tok e (wrap h (OCompl a b)) (Some o).
-Proof. apply resL_some. destruct h as [[? ?]|]; exact I. Qed.
-#[global] Hint Resolve resL_wrap : calc2.
-Ltac ts := repeat first [ apply trs_nil | assumption | apply trs_dtor | apply trs_dtor1 | apply trs_dtor_ev | apply trs_ctor_ev
+Ltac ts := repeat first [ apply trs_nil | assumption | apply trs_dtor
                         | apply trs_app | apply trs_cons; [exact I|] ].
 
 (* ---- unary nodes ---------------------------------------------------------------------------------- *)
@@ -460,8 +451,8 @@ Proof.
   destruct (eager_dtor k); inv H; (split; [auto with calc2|]); (split; [ts|]);
     intros x Hx; try apply in_or_app; auto.
 Qed.
-Lemma seq_final_l tok k h a b sb tr o st tr' r :
-  seq_final k h b sb tr o = (st, tr', r) -> trs (Bin k a b) tok tr ->
+Lemma seq_final_l tok k a b sb tr o st tr' r :
+  seq_final k b sb tr o = (st, tr', r) -> trs (Bin k a b) tok tr ->
   resL tok (Bin k a b) st r /\ trs (Bin k a b) tok tr' /\ incl tr tr'.
 Proof.
   unfold seq_final. intros H Ht.
@@ -558,10 +549,8 @@ Proof.
       | inr (en2, sv) =>
           let '(sb, trb, rb) := start b en2 cx in
           match rb with
-          | None => (ONode (ns_set_cell (ns_set_saved (ns_set_ph ns PSecond) sv) (let_cell k oa)) OFin sb,
-                     (tra ++ dtor1 (held k sv (let_cell k oa)) a sa) ++ trb, None)
-          | Some ob => seq_final k (held k sv (let_cell k oa)) b sb ((tra ++ dtor1 (held k sv (let_cell k oa)) a sa) ++ trb)
-                                 (after_second k sv ob)
+          | None => (ONode (ns_set_saved (ns_set_ph ns PSecond) sv) OFin sb, (tra ++ dtor a sa) ++ trb, None)
+          | Some ob => seq_final k b sb ((tra ++ dtor a sa) ++ trb) (after_second k sv ob)
           end
       end = (st, tr, r) -> resL tok (Bin k a b) st r /\ trs (Bin k a b) tok tr /\ incl tra tr end).
   { destruct k; try discriminate Hk; try exact I; intros H'.
@@ -574,7 +563,7 @@ Proof.
         assert (Htb' : trs (Bin kk a b) tok trb) by (apply trs_bin_b; exact Tb) end;
       destruct rb;
       [match goal with |- resL _ (Bin ?kk _ _) _ _ /\ _ =>
-         destruct (seq_final_l tok kk _ a b _ _ _ _ _ _ H') as (X1 & X2 & X3); [ts|] end;
+         destruct (seq_final_l tok kk a b _ _ _ _ _ _ H') as (X1 & X2 & X3); [ts|] end;
        split; [exact X1|split; [exact X2|]];
        intros x Hx; apply X3; apply in_or_app; left; apply in_or_app; left; exact Hx
       |injection H' as <- <- <-; split; [|split; [ts|intros x Hx; apply in_or_app; left; apply in_or_app; left; exact Hx]];
@@ -622,23 +611,15 @@ Proof.
 Qed.
 
 (* ---- concurrent nodes ----------------------------------------------------------------------------- *)
-Arguments conc_reap k i ns c r : simpl never.
-Lemma resL_store tok e k v st o : resL tok e (OStore k v st) (Some o).
-Proof. apply resL_some. exact I. Qed.
-#[global] Hint Resolve resL_store : calc2.
-Lemma conc_reap_l k i ns c tokc sc tr r sc' tr' r' :
-  conc_reap k i ns c (sc, tr, r) = (sc', tr', r') -> resL tokc c sc r ->
+Lemma conc_reap_l k c tokc sc tr r sc' tr' r' :
+  conc_reap k c (sc, tr, r) = (sc', tr', r') -> resL tokc c sc r ->
   resL tokc c sc' r' /\ r' = r /\ (forall e tok, trs e tok tr -> trs e tok tr') /\ incl tr tr'.
 Proof.
   unfold conc_reap. intros H R.
-  destruct r as [o|]; [destruct o|]; try (inv H; split; [exact R|split; [reflexivity|split; [auto|apply incl_refl]]]; fail).
   destruct k; try (inv H; split; [exact R|split; [reflexivity|split; [auto|apply incl_refl]]]; fail).
-  - inv H. split; [auto with calc2|]. split; [reflexivity|]. split; [intros; ts|intros x Hx; apply in_or_app; auto].
-  - destruct i; inv H; try (split; [exact R|split; [reflexivity|split; [auto|apply incl_refl]]]; fail).
-    split; [auto with calc2|]. split; [reflexivity|]. split; [intros; ts|intros x Hx; apply in_or_app; auto].
-  - inv H. split; [auto with calc2|]. split; [reflexivity|]. split; [|intros x Hx; apply in_or_app; auto].
-    intros. apply trs_app; [assumption|]. apply trs_cons; [exact I|]. apply trs_app; [apply trs_dtor|].
-    destruct (cell ns); ts.
+  destruct r as [o|]; [destruct o|]; inv H;
+    try (split; [exact R|split; [reflexivity|split; [auto|apply incl_refl]]]; fail).
+  split; [auto with calc2|]. split; [reflexivity|]. split; [intros; ts|intros x Hx; apply in_or_app; auto].
 Qed.
 
 Lemma finish_l k a b ns sa sb tr o st tr' r :
@@ -647,7 +628,7 @@ Lemma finish_l k a b ns sa sb tr o st tr' r :
 Proof.
   intros H. destruct (finish_some k a b ns sa sb tr o) as (st2 & d & E & Hi & Hd). rewrite E in H. inv H.
   split; [apply inert_done; exact Hi|]. split; [reflexivity|]. split; [|intros x Hx; apply in_or_app; auto].
-  intros e tok Ht. destruct Hd as [->|[->|[v ->]]]; ts.
+  intros e tok Ht. destruct Hd as [->| ->]; ts.
 Qed.
 
 Lemma ccd_both_done k ns i o ns2 nw fin :
@@ -679,8 +660,8 @@ Proof.
     + rewrite (E7 eq_refl) in *. simpl in E6.
       destruct (stop a sa cx) as [[sa0 tra0] ra0] eqn:Hs.
       destruct (Pa _ _ _ _ _ _ Hs Ha) as (R0 & T0 & _).
-      destruct (conc_reap k _ _ a (sa0, tra0, ra0)) as [[sa' tra] ra] eqn:Hr.
-      destruct (conc_reap_l _ _ _ _ _ _ _ _ _ _ _ Hr R0) as ([L1 L2] & -> & Tf & _).
+      destruct (conc_reap k a (sa0, tra0, ra0)) as [[sa' tra] ra] eqn:Hr.
+      destruct (conc_reap_l _ _ _ _ _ _ _ _ _ Hr R0) as ([L1 L2] & -> & Tf & _).
       assert (Tt : trs (Bin k a b) tok (tr ++ tra)).
       { apply trs_app; [exact Ht|]. apply trs_bin_a. apply (trs_weaken a tok true); [auto|]. apply Tf. exact T0. }
       assert (I1 : incl tr (tr ++ tra)) by (intros x Hx; apply in_or_app; auto).
@@ -718,8 +699,8 @@ Proof.
     + rewrite (E7 eq_refl) in *. simpl in E6.
       destruct (stop b sb cx) as [[sb0 trb0] rb0] eqn:Hs.
       destruct (Pb _ _ _ _ _ _ Hs Hb) as (R0 & T0 & _).
-      destruct (conc_reap k _ _ b (sb0, trb0, rb0)) as [[sb' trb] rb] eqn:Hr.
-      destruct (conc_reap_l _ _ _ _ _ _ _ _ _ _ _ Hr R0) as ([L1 L2] & -> & Tf & _).
+      destruct (conc_reap k b (sb0, trb0, rb0)) as [[sb' trb] rb] eqn:Hr.
+      destruct (conc_reap_l _ _ _ _ _ _ _ _ _ Hr R0) as ([L1 L2] & -> & Tf & _).
       assert (Tt : trs (Bin k a b) tok (tr ++ trb)).
       { apply trs_app; [exact Ht|]. apply trs_bin_b. apply (trs_weaken b tok true); [auto|]. apply Tf. exact T0. }
       assert (I1 : incl tr (tr ++ trb)) by (intros x Hx; apply in_or_app; auto).
@@ -746,8 +727,8 @@ Proof.
   destruct (start a (env_own en (e_stopped en)) cx) as [[sa0 tra0] ra0] eqn:Ha.
   destruct (Sa _ _ _ _ _ Ha) as [Ra0 Ta0].
   change (e_stopped (env_own en (e_stopped en))) with (e_stopped en) in *.
-  destruct (conc_reap k _ _ a (sa0, tra0, ra0)) as [[sa tra] ra] eqn:Hra.
-  destruct (conc_reap_l _ _ _ _ _ _ _ _ _ _ _ Hra Ra0) as ([La1 La2] & -> & Tfa & _).
+  destruct (conc_reap k a (sa0, tra0, ra0)) as [[sa tra] ra] eqn:Hra.
+  destruct (conc_reap_l _ _ _ _ _ _ _ _ _ Hra Ra0) as ([La1 La2] & -> & Tfa & _).
   assert (Ta : trs (Bin k a b) (e_stopped en) tra) by (apply trs_bin_a; apply Tfa; exact Ta0).
   destruct (match ra0 with
             | Some oa => conc_child_done k (conc_ns0 en) false oa
@@ -764,8 +745,8 @@ Proof.
   destruct (start b (env_own en (own_stop ns1)) cx) as [[sb0 trb0] rb0] eqn:Hb.
   destruct (Sb _ _ _ _ _ Hb) as [Rb0 Tb0].
   change (e_stopped (env_own en (own_stop ns1))) with (own_stop ns1) in *.
-  destruct (conc_reap k _ _ b (sb0, trb0, rb0)) as [[sb trb] rb] eqn:Hrb.
-  destruct (conc_reap_l _ _ _ _ _ _ _ _ _ _ _ Hrb Rb0) as ([Lb1 Lb2] & -> & Tfb & _).
+  destruct (conc_reap k b (sb0, trb0, rb0)) as [[sb trb] rb] eqn:Hrb.
+  destruct (conc_reap_l _ _ _ _ _ _ _ _ _ Hrb Rb0) as ([Lb1 Lb2] & -> & Tfb & _).
   assert (Tb : trs (Bin k a b) (e_stopped en) trb).
   { apply trs_bin_b. apply (trs_weaken b _ (own_stop ns1)); [exact F3|]. apply Tfb. exact Tb0. }
   destruct rb0 as [ob|].
@@ -781,9 +762,9 @@ Proof.
 Qed.
 
 (* the optional stop of one child inside the cancel callback of a concurrent node *)
-Lemma opt_stop_l e k ri rns (d : bool) s s' tr r cx :
+Lemma opt_stop_l e k (d : bool) s s' tr r cx :
   StopL e -> chld (live false e s) s d ->
-  (if d then (s, [], None) else conc_reap k ri rns e (stop e s cx)) = (s', tr, r) ->
+  (if d then (s, [], None) else conc_reap k e (stop e s cx)) = (s', tr, r) ->
   (r = None -> chld (live true e s') s' d) /\ (r <> None -> done_st s' /\ d = false) /\
   trs e true tr /\ (forall id, In id (reach_unseen e s) -> In (TLeafStop id) tr).
 Proof.
@@ -792,7 +773,7 @@ Proof.
     unfold reach_unseen. rewrite lv_inert by exact Hc. intros id [].
   - destruct (stop e s cx) as [[s0 t0] r0] eqn:Hs.
     destruct (P _ _ _ _ _ _ Hs Hc) as (R0 & T & U).
-    destruct (conc_reap_l _ _ _ _ _ _ _ _ _ _ _ H R0) as ([L1 L2] & -> & Tf & Ii). auto 6.
+    destruct (conc_reap_l _ _ _ _ _ _ _ _ _ H R0) as ([L1 L2] & -> & Tf & Ii). auto 6.
 Qed.
 
 Lemma opt_ccd k ns i (ro : option outcome) ns2 x fin :
@@ -824,8 +805,8 @@ Proof.
   unfold reach_unseen. rewrite lv_conc by exact Hk.
   unfold stop_conc in H. cbv zeta in H. change (leaky k) with false in H.
   change (bdone (ns_set_own (stopped_ns ns) true)) with (bdone ns) in H.
-  destruct (if bdone ns then (sb, [], None) else conc_reap k _ _ b (stop b sb cx)) as [[sb' trb] rb] eqn:Hbs.
-  destruct (opt_stop_l b k _ _ _ _ _ _ _ _ Pb Hb Hbs) as (B1 & B2 & B3 & B4).
+  destruct (if bdone ns then (sb, [], None) else conc_reap k b (stop b sb cx)) as [[sb' trb] rb] eqn:Hbs.
+  destruct (opt_stop_l b k _ _ _ _ _ _ Pb Hb Hbs) as (B1 & B2 & B3 & B4).
   destruct (match rb with
             | Some ob => conc_child_done k (ns_set_own (stopped_ns ns) true) true ob
             | None => (ns_set_own (stopped_ns ns) true, false, None) end) as [[ns2 x] fin1] eqn:Hm.
@@ -842,11 +823,11 @@ Proof.
     rewrite Had in Ha. simpl in Ha.
     split; [apply resL_some; exact Hi|]. split; [apply Tf; apply trs_bin_b; exact B3|].
     intros id Hin. rewrite (lv_inert _ _ a sa Ha) in Hin. simpl in Hin. auto.
-  - destruct (if adone ns2 then (sa, [], None) else conc_reap k _ _ a (stop a sa cx)) as [[sa' tra] ra] eqn:Has.
+  - destruct (if adone ns2 then (sa, [], None) else conc_reap k a (stop a sa cx)) as [[sa' tra] ra] eqn:Has.
     rewrite M3 in Has.
     assert (Ha2 : chld (live false a sa) sa (match rb with Some _ => adone ns | None => adone ns end))
       by (destruct rb; exact Ha).
-    destruct (opt_stop_l a k _ _ _ _ _ _ _ _ Pa Ha2 Has) as (A1 & A2 & A3 & A4).
+    destruct (opt_stop_l a k _ _ _ _ _ _ Pa Ha2 Has) as (A1 & A2 & A3 & A4).
     destruct (match ra with
               | Some oa => conc_child_done k ns2 false oa
               | None => (ns2, false, None) end) as [[ns3 y] fin2] eqn:Hm2.
@@ -898,15 +879,15 @@ Proof.
   intros Hk La Lb Pa Pb HL H. assert (HL0 := HL). rewrite live_conc in HL by exact Hk.
   destruct HL as (He & Ho & Ha & Hb & Hd). unfold leafev_conc in H.
   destruct (if adone ns then (sa, [], None, false)
-            else reap_ev k _ _ a (child_ev (bin_throw k false) false a sa id (tmode o) o cx))
+            else reap_ev k a (child_ev (bin_throw k false) false a sa id (tmode o) o cx))
     as [[[sa' tra] ra] hita] eqn:Has.
   destruct hita.
   - destruct (adone ns) eqn:Had; [inv Has|]. simpl in Ha.
     destruct (child_ev (bin_throw k false) false a sa id (tmode o) o cx) as [[[sa0 tra0] ra0] h0] eqn:Hl.
-    unfold reap_ev in Has. cbn [fst snd] in Has.
+    unfold reap_ev in Has. simpl in Has.
     injection Has as Has ->.
     destruct (child_ev_l _ _ _ _ _ _ _ _ _ _ _ _ _ La Ha Hl) as [R0 T0].
-    destruct (conc_reap_l _ _ _ _ _ _ _ _ _ _ _ Has R0) as ([L1 L2] & -> & Tf & _).
+    destruct (conc_reap_l _ _ _ _ _ _ _ _ _ Has R0) as ([L1 L2] & -> & Tf & _).
     assert (Tt : trs (Bin k a b) tok tra).
     { apply trs_bin_a. apply (trs_weaken a _ (own_stop ns)); [exact Ho|]. apply Tf. exact T0. }
     destruct ra0 as [oa|].
@@ -915,15 +896,15 @@ Proof.
       apply L2. discriminate.
     + inv H. split; [|exact Tt].
       apply resL_none. rewrite live_conc by exact Hk. rewrite Had. simpl. auto 6.
-  - destruct (if bdone ns then (sb, [], None, false) else reap_ev k _ _ b (leafev b sb id (tmode o) cx))
+  - destruct (if bdone ns then (sb, [], None, false) else reap_ev k b (leafev b sb id (tmode o) cx))
       as [[[sb' trb] rb] hitb] eqn:Hbs.
     destruct (bdone ns) eqn:Hbd.
     + inv Hbs. inv H. split; [apply resL_none; exact HL0|]. apply trs_nil.
     + simpl in Hb.
-      destruct (leafev b sb id (tmode o) cx) as [[[sb0 trb0] rb0] h0] eqn:Hl. unfold reap_ev in Hbs. cbn [fst snd] in Hbs.
+      destruct (leafev b sb id (tmode o) cx) as [[[sb0 trb0] rb0] h0] eqn:Hl. unfold reap_ev in Hbs. simpl in Hbs.
       injection Hbs as Hbs ->.
       destruct (Lb _ _ _ _ _ _ _ _ _ Hl Hb) as [R0 T0].
-      destruct (conc_reap_l _ _ _ _ _ _ _ _ _ _ _ Hbs R0) as ([L1 L2] & -> & Tf & _).
+      destruct (conc_reap_l _ _ _ _ _ _ _ _ _ Hbs R0) as ([L1 L2] & -> & Tf & _).
       assert (Tt : trs (Bin k a b) tok trb).
       { apply trs_bin_b. apply (trs_weaken b _ (own_stop ns)); [exact Ho|]. apply Tf. exact T0. }
       assert (Ha' : chld (live (own_stop ns) a sa) sa (adone ns)).
@@ -988,12 +969,12 @@ Proof.
     + intros en cx st tr r H. simpl in H.
       apply (start_leaflike_l (Leaf i) i en cx st tr r false); [simpl; auto|simpl; auto|intros; exact I|].
       destruct (e_stopped en); exact H.
-    + intros tok cx st st' tr r H HL. destruct st as [|cc sn| | | |? ? ?]; try contradiction HL.
+    + intros tok cx st st' tr r H HL. destruct st as [|cc sn| | |]; try contradiction HL.
       destruct HL as [-> ->]. destruct tok; simpl in H; inv H.
       * split; [apply resL_none; simpl; auto|]. split; [apply trs_nil|]. intros id [].
       * split; [apply resL_none; simpl; auto|]. split; [repeat constructor|].
         intros id [<-|[]]. left. reflexivity.
-    + intros tok cx st id o st' tr r hit H HL. destruct st as [|cc sn| | | |? ? ?]; try contradiction HL.
+    + intros tok cx st id o st' tr r hit H HL. destruct st as [|cc sn| | |]; try contradiction HL.
       assert (HL0 := HL). destruct HL as [-> ->]. simpl in H.
       destruct (Nat.eqb id i); inv H; (split; [|apply trs_nil]); [apply resL_some; exact I|apply resL_none; exact HL0].
   - (* LeafN *)
@@ -1001,22 +982,22 @@ Proof.
     + intros en cx st tr r H. simpl in H.
       apply (start_leaflike_l (LeafN i) i en cx st tr r true); [simpl; auto|simpl; auto|intros; exact I|].
       destruct (e_stopped en); exact H.
-    + intros tok cx st st' tr r H HL. destruct st as [|cc sn| | | |? ? ?]; try contradiction HL.
+    + intros tok cx st st' tr r H HL. destruct st as [|cc sn| | |]; try contradiction HL.
       destruct HL as [-> ->]. destruct tok; simpl in H; inv H.
       * split; [apply resL_none; simpl; auto|]. split; [apply trs_nil|]. intros id [].
       * split; [apply resL_some; exact I|]. split; [repeat constructor|].
         intros id [<-|[]]. left. reflexivity.
-    + intros tok cx st id o st' tr r hit H HL. destruct st as [|cc sn| | | |? ? ?]; try contradiction HL.
+    + intros tok cx st id o st' tr r hit H HL. destruct st as [|cc sn| | |]; try contradiction HL.
       assert (HL0 := HL). destruct HL as [-> ->]. simpl in H.
       destruct (Nat.eqb id i); inv H; (split; [|apply trs_nil]); [apply resL_some; exact I|apply resL_none; exact HL0].
   - (* Sched *)
     split; [|split].
     + intros en cx st tr r H. simpl in H. inv H. split; [apply resL_none; simpl; auto|]. repeat constructor.
-    + intros tok cx st st' tr r H HL. destruct st as [|cc sn| | | |? ? ?]; try contradiction HL.
+    + intros tok cx st st' tr r H HL. destruct st as [|cc sn| | |]; try contradiction HL.
       destruct HL as [-> ->]. destruct tok; simpl in H; inv H.
       * split; [apply resL_none; simpl; auto|]. split; [apply trs_nil|]. intros id [].
       * split; [apply resL_none; simpl; auto|]. split; [apply trs_nil|]. intros id [].
-    + intros tok cx st id o st' tr r hit H HL. destruct st as [|cc sn| | | |? ? ?]; try contradiction HL.
+    + intros tok cx st id o st' tr r hit H HL. destruct st as [|cc sn| | |]; try contradiction HL.
       assert (HL0 := HL). destruct HL as [-> ->]. simpl in H.
       destruct (Nat.eqb id i); inv H; (split; [|apply trs_nil]); [apply resL_some; exact I|apply resL_none; exact HL0].
   - (* LeafR *)
@@ -1024,13 +1005,13 @@ Proof.
     + intros en cx st tr r H. simpl in H.
       apply (start_leaflike_l (LeafR i lvl) i en cx st tr r false); [simpl; auto|simpl; auto|intros; exact I|].
       destruct (e_stopped en); exact H.
-    + intros tok cx st st' tr r H HL. destruct st as [|cc sn| | |vv|? ? ?]; try contradiction HL.
+    + intros tok cx st st' tr r H HL. destruct st as [|cc sn| | |vv]; try contradiction HL.
       * destruct HL as [-> ->]. destruct tok; simpl in H; inv H.
         -- split; [apply resL_none; simpl; auto|]. split; [apply trs_nil|]. intros id [].
         -- split; [apply resL_none; simpl; auto|]. split; [repeat constructor|].
            intros id [<-|[]]. left. reflexivity.
       * simpl in H. inv H. split; [apply resL_none; exact I|]. split; [apply trs_nil|]. intros id [].
-    + intros tok cx st id o st' tr r hit H HL. destruct st as [|cc sn| | |vv|? ? ?]; try contradiction HL.
+    + intros tok cx st id o st' tr r hit H HL. destruct st as [|cc sn| | |vv]; try contradiction HL.
       * assert (HL0 := HL). destruct HL as [-> ->]. simpl in H.
         destruct (Nat.eqb id i); [|inv H; split; [apply resL_none; exact HL0|apply trs_nil]].
         destruct o; inv H; (split; [|repeat constructor]);
@@ -1063,7 +1044,7 @@ Proof.
         intros l ->. split; [reflexivity|]. split; [exact R1|exact T'].
       * inv H. split; [|exact Tp]. apply resL_none. rewrite live_un.
         split; [intros _; rewrite un_nst_env; reflexivity|]. split; [apply un_nst_own|]. apply R1. reflexivity.
-    + intros tok cx st st' tr r H HL. destruct st as [|cc sn|ns sc sb|sa sb|vv|? ? ?]; try contradiction HL.
+    + intros tok cx st st' tr r H HL. destruct st as [|cc sn|ns sc sb|sa sb|vv]; try contradiction HL.
       rewrite live_un in HL. destruct HL as (He & Ho & HL).
       destruct (is_unst k) eqn:Hk.
       * apply is_unst_true in Hk. subst k. rewrite stop_un_unst in H. inv H.
@@ -1104,7 +1085,7 @@ Proof.
            ++ inv H. split; [|auto]. apply resL_none. rewrite live_un.
               split; [reflexivity|]. split; [rewrite Hown; discriminate|].
               unfold un_tok. rewrite Hk, Hown. apply R1. reflexivity.
-    + intros tok cx st id o st' tr r hit H HL. destruct st as [|cc sn|ns sc sb|sa sb|vv|? ? ?]; try contradiction HL.
+    + intros tok cx st id o st' tr r hit H HL. destruct st as [|cc sn|ns sc sb|sa sb|vv]; try contradiction HL.
       assert (HL0 := HL). rewrite live_un in HL. destruct HL as (He & Ho & HL).
       rewrite leafev_un in H. unfold leafev_un_body in H.
       destruct (child_ev (un_throw k) (un_catch k) s sc id (un_in k o) o cx) as [[[sc' tr1] r1] h1] eqn:Hs.
@@ -1174,7 +1155,7 @@ Proof.
            intros [e' E]. inv E. apply Rl. eauto.
         -- inv H. split; [|exact T1]. apply resL_none.
            rewrite live_seq1 by (auto; reflexivity). split; [reflexivity|]. apply R1. reflexivity.
-      * intros tok cx st st' tr r H HL. destruct st as [|cc sn|ns sa sb|sa sb|vv|? ? ?]; try contradiction HL.
+      * intros tok cx st st' tr r H HL. destruct st as [|cc sn|ns sa sb|sa sb|vv]; try contradiction HL.
         rewrite stop_bin, Hk in H. unfold reach_unseen.
         destruct (ph ns) eqn:Hp.
         -- rewrite live_seq1 in HL by assumption. destruct HL as [He HL].
@@ -1215,7 +1196,7 @@ Proof.
                 as (X1 & X2 & X3); auto.
            ++ inv H. split; [|auto]. apply resL_none.
               rewrite live_seq2 by (auto; exact Hp'). split; [reflexivity|]. apply R1. reflexivity.
-      * intros tok cx st id o st' tr r hit H HL. destruct st as [|cc sn|ns sa sb|sa sb|vv|? ? ?]; try contradiction HL.
+      * intros tok cx st id o st' tr r hit H HL. destruct st as [|cc sn|ns sa sb|sa sb|vv]; try contradiction HL.
         rewrite leafev_bin_seq in H by exact Hk.
         destruct (ph ns) eqn:Hp.
         -- rewrite live_seq1 in HL by assumption. destruct HL as [He HL].
@@ -1267,7 +1248,7 @@ Proof.
         destruct (sthrows (Bin k a b));
           [unfold start_thrown in H; injection H as <- <- <-; split; [apply resL_fin|exact (trs_sconn (Bin k a b) _ _ _)]|].
         eapply start_conc_l; eauto.
-      * intros tok cx st st' tr r H HL. destruct st as [|cc sn|ns sa sb|sa sb|vv|? ? ?]; try contradiction HL.
+      * intros tok cx st st' tr r H HL. destruct st as [|cc sn|ns sa sb|sa sb|vv]; try contradiction HL.
         rewrite stop_bin, Hk in H.
         destruct (own_stop ns) eqn:Hown.
         -- inv H. rewrite live_conc in HL by exact Hk. destruct HL as (He & Ho & Ha & Hb & Hd).
@@ -1280,7 +1261,7 @@ Proof.
            { destruct (bdone ns); simpl in Hb; [apply lv_inert; exact Hb|apply live_true_unseen; exact Hb]. }
            rewrite Ea, Eb. intros id [].
         -- eapply stop_conc_l; eauto.
-      * intros tok cx st id o st' tr r hit H HL. destruct st as [|cc sn|ns sa sb|sa sb|vv|? ? ?]; try contradiction HL.
+      * intros tok cx st id o st' tr r hit H HL. destruct st as [|cc sn|ns sa sb|sa sb|vv]; try contradiction HL.
         rewrite leafev_bin_conc in H by exact Hk.
         eapply leafev_conc_l; eauto.
 Qed.
@@ -1346,8 +1327,8 @@ Proof.
   rewrite N. bmg; eauto.
 Qed.
 
-Lemma conc_reap_out k i ns c r : snd (conc_reap k i ns c r) = snd r.
-Proof. destruct r as [[sc tr] o]. unfold conc_reap. destruct o as [[]|]; try reflexivity. destruct k; try reflexivity. destruct i; reflexivity. Qed.
+Lemma conc_reap_out k c r : snd (conc_reap k c r) = snd r.
+Proof. destruct r as [[sc tr] o]. unfold conc_reap. destruct k; try reflexivity. destruct o as [[]|]; reflexivity. Qed.
 
 Theorem losers_stopped_a k a b ns sa sb id o cx sa' tra oa st' tr r hit tok :
   is_seq k = false ->
@@ -1363,8 +1344,8 @@ Proof.
   rewrite Hbd, Hown in Lb. simpl in Lb.
   rewrite leafev_bin_conc in H by exact Hk. unfold leafev_conc in H. rewrite Had, Ha in H.
   unfold reap_ev in H. cbn [fst snd] in H.
-  pose proof (conc_reap_out k false ns a (sa', tra, Some oa)) as Eo.
-  destruct (conc_reap k _ _ a (sa', tra, Some oa)) as [[sa2 tra2] ra2]. simpl in Eo. subst ra2.
+  pose proof (conc_reap_out k a (sa', tra, Some oa)) as Eo.
+  destruct (conc_reap k a (sa', tra, Some oa)) as [[sa2 tra2] ra2]. simpl in Eo. subst ra2.
   injection H as H _. unfold conc_a_done in H.
   destruct (ccd_newly k ns false oa Hown Hl) as (ns1 & fin & Hc). rewrite Hc in H.
   apply ccd_spec in Hc. destruct Hc as (_ & _ & _ & E4 & E5 & _ & _ & Ef).
@@ -1372,8 +1353,8 @@ Proof.
   destruct (stop b sb cx) as [[sb0 trb0] rb0] eqn:Hs.
   destruct (stop_l b _ _ _ _ _ _ Hs Lb) as (R0 & _ & U).
   specialize (U _ Hin).
-  destruct (conc_reap k _ _ b (sb0, trb0, rb0)) as [[sb' trb] rb] eqn:Hr.
-  destruct (conc_reap_l _ _ _ _ _ _ _ _ _ _ _ Hr R0) as (_ & -> & _ & Ii).
+  destruct (conc_reap k b (sb0, trb0, rb0)) as [[sb' trb] rb] eqn:Hr.
+  destruct (conc_reap_l _ _ _ _ _ _ _ _ _ Hr R0) as (_ & -> & _ & Ii).
   destruct rb0 as [ob|].
   - destruct (conc_child_done k ns1 true ob) as [[ns2 x] fin2] eqn:Hc2.
     destruct fin2 as [o2|].
@@ -1398,10 +1379,10 @@ Proof.
   destruct (child_ev (bin_throw k false) false a sa id (tmode o) o cx) as [[[sa1 tra1] ra1] hita] eqn:Ec.
   apply child_ev_cases in Ec. destruct Ec as (Eh & _). rewrite Hmiss in Eh. subst hita.
   unfold reap_ev in H. cbn [fst snd] in H.
-  destruct (conc_reap k _ _ a (sa1, tra1, ra1)) as [[sa2 tra2] ra2].
+  destruct (conc_reap k a (sa1, tra1, ra1)) as [[sa2 tra2] ra2].
   rewrite Hbd, Hb in H. cbn [fst snd] in H.
-  pose proof (conc_reap_out k true ns b (sb', trb, Some ob)) as Eo.
-  destruct (conc_reap k _ _ b (sb', trb, Some ob)) as [[sb2 trb2] rb2]. simpl in Eo. subst rb2.
+  pose proof (conc_reap_out k b (sb', trb, Some ob)) as Eo.
+  destruct (conc_reap k b (sb', trb, Some ob)) as [[sb2 trb2] rb2]. simpl in Eo. subst rb2.
   injection H as H _. unfold conc_b_done in H.
   destruct (ccd_newly k ns true ob Hown Hl) as (ns1 & fin & Hc). rewrite Hc in H.
   apply ccd_spec in Hc. destruct Hc as (_ & _ & _ & E4 & E5 & _ & _ & Ef).
@@ -1409,8 +1390,8 @@ Proof.
   destruct (stop a sa cx) as [[sa0 tra0] ra0] eqn:Hs.
   destruct (stop_l a _ _ _ _ _ _ Hs La) as (R0 & _ & U).
   specialize (U _ Hin).
-  destruct (conc_reap k _ _ a (sa0, tra0, ra0)) as [[sa' tra] ra] eqn:Hr.
-  destruct (conc_reap_l _ _ _ _ _ _ _ _ _ _ _ Hr R0) as (_ & -> & _ & Ii).
+  destruct (conc_reap k a (sa0, tra0, ra0)) as [[sa' tra] ra] eqn:Hr.
+  destruct (conc_reap_l _ _ _ _ _ _ _ _ _ Hr R0) as (_ & -> & _ & Ii).
   destruct ra0 as [oa|].
   - destruct (conc_child_done k ns1 false oa) as [[ns2 x] fin2] eqn:Hc2.
     destruct fin2 as [o2|].
@@ -1815,11 +1796,8 @@ Qed.
 
 Lemma seq_pass_d d k a b sa tr o st tr' r : seq_pass k a sa tr o = (st, tr', r) -> dwf d (Bin k a b) st.
 Proof. unfold seq_pass. intros H. destruct (eager_dtor k); inv H; auto with calcd. Qed.
-Lemma seq_final_d d k h a b sb tr o st tr' r : seq_final k h b sb tr o = (st, tr', r) -> dwf d (Bin k a b) st.
-Proof.
-  unfold seq_final. intros H. destruct (eager_dtor k); inv H; auto with calcd.
-  apply dwf_inert. destruct h as [[? ?]|]; exact I.
-Qed.
+Lemma seq_final_d d k a b sb tr o st tr' r : seq_final k b sb tr o = (st, tr', r) -> dwf d (Bin k a b) st.
+Proof. unfold seq_final. intros H. destruct (eager_dtor k); inv H; auto with calcd. Qed.
 
 Lemma retry_err_d d a b sa0 tra0 ra0 sbl trbl rbl :
   dwf d a sa0 -> dwf d b sbl ->
@@ -1888,10 +1866,8 @@ Proof.
       | inr (en2, sv) =>
           let '(sb, trb, rb) := start b en2 cx in
           match rb with
-          | None => (ONode (ns_set_cell (ns_set_saved (ns_set_ph ns PSecond) sv) (let_cell k oa)) OFin sb,
-                     (tra ++ dtor1 (held k sv (let_cell k oa)) a sa) ++ trb, None)
-          | Some ob => seq_final k (held k sv (let_cell k oa)) b sb ((tra ++ dtor1 (held k sv (let_cell k oa)) a sa) ++ trb)
-                                 (after_second k sv ob)
+          | None => (ONode (ns_set_saved (ns_set_ph ns PSecond) sv) OFin sb, (tra ++ dtor a sa) ++ trb, None)
+          | Some ob => seq_final k b sb ((tra ++ dtor a sa) ++ trb) (after_second k sv ob)
           end
       end = (st, tr, r) -> dwf d (Bin k a b) st end).
   { destruct k; try discriminate Hk; try exact I; intros H'.
@@ -1933,15 +1909,11 @@ Proof.
   - inv H. rewrite dwf_bin. auto with calcd.
 Qed.
 
-Lemma dwf_store d e k v st : dwf d e (OStore k v st).
-Proof. destruct e; exact I. Qed.
-#[global] Hint Resolve dwf_store : calcd.
-Lemma conc_reap_d d k i ns c sc tr r sc' tr' r' :
-  conc_reap k i ns c (sc, tr, r) = (sc', tr', r') -> dwf d c sc -> dwf d c sc'.
+Lemma conc_reap_d d k c sc tr r sc' tr' r' :
+  conc_reap k c (sc, tr, r) = (sc', tr', r') -> dwf d c sc -> dwf d c sc'.
 Proof.
-  unfold conc_reap. intros H Hq.
-  destruct r as [o|]; [destruct o|]; try (inv H; auto; fail).
-  destruct k; try (inv H; auto with calcd; fail). destruct i; inv H; auto with calcd.
+  unfold conc_reap. intros H Hq. destruct k; try (inv H; auto; fail).
+  destruct r as [o|]; [destruct o|]; inv H; auto with calcd.
 Qed.
 
 Lemma finish_d d k a b ns sa sb tr fin st tr' r :
@@ -1966,8 +1938,8 @@ Proof.
   - destruct newly.
     + destruct (stop a sa cx) as [[sa0 tra0] ra0] eqn:Hs.
       pose proof (Pa _ _ _ _ _ _ Hs Ha) as Ha0.
-      destruct (conc_reap k _ _ a (sa0, tra0, ra0)) as [[sa' tra] ra] eqn:Hr.
-      pose proof (conc_reap_d _ _ _ _ _ _ _ _ _ _ _ Hr Ha0) as Ha'.
+      destruct (conc_reap k a (sa0, tra0, ra0)) as [[sa' tra] ra] eqn:Hr.
+      pose proof (conc_reap_d _ _ _ _ _ _ _ _ _ Hr Ha0) as Ha'.
       destruct ra as [oa|].
       * destruct (conc_child_done k ns1 false oa) as [[ns2 x] fin2] eqn:Hc2.
         apply ccd_spec in Hc2. destruct Hc2 as (He2 & _). apply (dep_is_env _ _ _ He2) in Hn.
@@ -1988,8 +1960,8 @@ Proof.
   - destruct newly.
     + destruct (stop b sb cx) as [[sb0 trb0] rb0] eqn:Hs.
       pose proof (Pb _ _ _ _ _ _ Hs Hb) as Hb0.
-      destruct (conc_reap k _ _ b (sb0, trb0, rb0)) as [[sb' trb] rb] eqn:Hr.
-      pose proof (conc_reap_d _ _ _ _ _ _ _ _ _ _ _ Hr Hb0) as Hb'.
+      destruct (conc_reap k b (sb0, trb0, rb0)) as [[sb' trb] rb] eqn:Hr.
+      pose proof (conc_reap_d _ _ _ _ _ _ _ _ _ Hr Hb0) as Hb'.
       destruct rb as [ob|].
       * destruct (conc_child_done k ns1 true ob) as [[ns2 x] fin2] eqn:Hc2.
         apply ccd_spec in Hc2. destruct Hc2 as (He2 & _). apply (dep_is_env _ _ _ He2) in Hn.
@@ -2005,8 +1977,8 @@ Proof.
   intros Sa Pa Sb H. unfold start_conc in H.
   destruct (start a (env_own en (e_stopped en)) cx) as [[sa0 tra0] ra0] eqn:Ha.
   pose proof (Sa _ _ _ _ _ Ha) as Hqa0. change (e_ss (env_own en (e_stopped en))) with (e_ss en) in Hqa0.
-  destruct (conc_reap k _ _ a (sa0, tra0, ra0)) as [[sa tra] ra] eqn:Hra.
-  pose proof (conc_reap_d _ _ _ _ _ _ _ _ _ _ _ Hra Hqa0) as Hqa.
+  destruct (conc_reap k a (sa0, tra0, ra0)) as [[sa tra] ra] eqn:Hra.
+  pose proof (conc_reap_d _ _ _ _ _ _ _ _ _ Hra Hqa0) as Hqa.
   destruct (match ra with
             | Some oa => conc_child_done k (conc_ns0 en) false oa
             | None => (conc_ns0 en, false, None) end) as [[ns1 x1] x2] eqn:Hm.
@@ -2016,20 +1988,20 @@ Proof.
     - inv Hm. reflexivity. }
   destruct (start b (env_own en (own_stop ns1)) cx) as [[sb0 trb0] rb0] eqn:Hb.
   pose proof (Sb _ _ _ _ _ Hb) as Hqb0. change (e_ss (env_own en (own_stop ns1))) with (e_ss en) in Hqb0.
-  destruct (conc_reap k _ _ b (sb0, trb0, rb0)) as [[sb trb] rb] eqn:Hrb.
-  pose proof (conc_reap_d _ _ _ _ _ _ _ _ _ _ _ Hrb Hqb0) as Hqb.
+  destruct (conc_reap k b (sb0, trb0, rb0)) as [[sb trb] rb] eqn:Hrb.
+  pose proof (conc_reap_d _ _ _ _ _ _ _ _ _ Hrb Hqb0) as Hqb.
   destruct rb as [ob|].
   - eapply conc_b_done_d; [exact Pa|exact Hn1|exact Hqa|exact Hqb|exact H].
   - inv H. rewrite dwf_bin. auto.
 Qed.
 
-Lemma opt_stop_d d k ri rns c cx (dd : bool) sc sc' tr r :
+Lemma opt_stop_d d k c cx (dd : bool) sc sc' tr r :
   StopD c -> dwf d c sc ->
-  (if dd then (sc, [], None) else conc_reap k ri rns c (stop c sc cx)) = (sc', tr, r) -> dwf d c sc'.
+  (if dd then (sc, [], None) else conc_reap k c (stop c sc cx)) = (sc', tr, r) -> dwf d c sc'.
 Proof.
   intros P Hq H. destruct dd; [inv H; auto|].
   destruct (stop c sc cx) as [[s0 t0] r0] eqn:Hs.
-  pose proof (P _ _ _ _ _ _ Hs Hq) as Q. exact (conc_reap_d _ _ _ _ _ _ _ _ _ _ _ H Q).
+  pose proof (P _ _ _ _ _ _ Hs Hq) as Q. exact (conc_reap_d _ _ _ _ _ _ _ _ _ H Q).
 Qed.
 
 Lemma stop_conc_d d k a b ns sa sb cx st' tr r :
@@ -2039,9 +2011,9 @@ Lemma stop_conc_d d k a b ns sa sb cx st' tr r :
 Proof.
   intros Pa Pb Hn Hqa Hqb H. unfold stop_conc in H. cbv zeta in H.
   change (leaky k) with false in H.
-  destruct (if bdone (ns_set_own (stopped_ns ns) true) then (sb, [], None) else conc_reap k _ _ b (stop b sb cx))
+  destruct (if bdone (ns_set_own (stopped_ns ns) true) then (sb, [], None) else conc_reap k b (stop b sb cx))
     as [[sb' trb] rb] eqn:Hb.
-  pose proof (opt_stop_d _ _ _ _ _ _ _ _ _ _ _ Pb Hqb Hb) as Hqb'.
+  pose proof (opt_stop_d _ _ _ _ _ _ _ _ _ Pb Hqb Hb) as Hqb'.
   destruct (match rb with
             | Some ob => conc_child_done k (ns_set_own (stopped_ns ns) true) true ob
             | None => (ns_set_own (stopped_ns ns) true, false, None) end) as [[ns2 x] fin1] eqn:Hm.
@@ -2051,8 +2023,8 @@ Proof.
     - inv Hm. exact Hn. }
   destruct fin1 as [o1|].
   - eapply finish_d; eauto.
-  - destruct (if adone ns2 then (sa, [], None) else conc_reap k _ _ a (stop a sa cx)) as [[sa' tra] ra] eqn:Ha.
-    pose proof (opt_stop_d _ _ _ _ _ _ _ _ _ _ _ Pa Hqa Ha) as Hqa'.
+  - destruct (if adone ns2 then (sa, [], None) else conc_reap k a (stop a sa cx)) as [[sa' tra] ra] eqn:Ha.
+    pose proof (opt_stop_d _ _ _ _ _ _ _ _ _ Pa Hqa Ha) as Hqa'.
     destruct (match ra with
               | Some oa => conc_child_done k ns2 false oa
               | None => (ns2, false, None) end) as [[ns3 y] fin2] eqn:Hm2.
@@ -2071,16 +2043,16 @@ Proof.
   exact (L _ _ _ _ _ _ _ _ _ E Hq).
 Qed.
 
-Lemma opt_leafev_d d k ri rns c (dd : bool) sc (X : res * bool) sc' tr r hit :
+Lemma opt_leafev_d d k c (dd : bool) sc (X : res * bool) sc' tr r hit :
   (forall s1 t1 r1 h1, X = ((s1, t1, r1), h1) -> dwf d c s1) -> dwf d c sc ->
-  (if dd then ((sc, [], None), false) else reap_ev k ri rns c X) = ((sc', tr, r), hit) ->
+  (if dd then ((sc, [], None), false) else reap_ev k c X) = ((sc', tr, r), hit) ->
   dwf d c sc'.
 Proof.
   intros L Hq H. destruct dd; [inv H; auto|].
   destruct X as [[[s0 t0] r0] h0] eqn:Hs.
   pose proof (L _ _ _ _ eq_refl) as Q.
-  unfold reap_ev in H. cbn [fst snd] in H. injection H as H Hh.
-  exact (conc_reap_d _ _ _ _ _ _ _ _ _ _ _ H Q).
+  unfold reap_ev in H. simpl in H. injection H as H Hh.
+  exact (conc_reap_d _ _ _ _ _ _ _ _ _ H Q).
 Qed.
 
 Lemma leafev_conc_d d k a b ns sa sb id o cx st' tr r hit :
@@ -2090,17 +2062,17 @@ Lemma leafev_conc_d d k a b ns sa sb id o cx st' tr r hit :
 Proof.
   intros La Lb Pa Pb Hn Hqa Hqb H. unfold leafev_conc in H.
   destruct (if adone ns then (sa, [], None, false)
-            else reap_ev k _ _ a (child_ev (bin_throw k false) false a sa id (tmode o) o cx))
+            else reap_ev k a (child_ev (bin_throw k false) false a sa id (tmode o) o cx))
     as [[[sa' tra] ra] hita] eqn:Ha.
-  pose proof (opt_leafev_d d k _ _ a _ _ _ _ _ _ _
+  pose proof (opt_leafev_d d k a _ _ _ _ _ _ _
                 (fun s1 t1 r1 h1 E => child_ev_d _ _ _ _ _ _ _ _ _ _ _ _ _ La Hqa E) Hqa Ha) as Hqa'.
   destruct hita.
   - destruct ra as [oa|].
     + injection H as H Hhit. eapply conc_a_done_d; [exact Pb|exact Hn|exact Hqa'|exact Hqb|exact H].
     + inv H. rewrite dwf_bin. auto.
-  - destruct (if bdone ns then (sb, [], None, false) else reap_ev k _ _ b (leafev b sb id (tmode o) cx))
+  - destruct (if bdone ns then (sb, [], None, false) else reap_ev k b (leafev b sb id (tmode o) cx))
       as [[[sb' trb] rb] hitb] eqn:Hb.
-    pose proof (opt_leafev_d d k _ _ b _ _ _ _ _ _ _
+    pose proof (opt_leafev_d d k b _ _ _ _ _ _ _
                   (fun s1 t1 r1 h1 E => Lb _ _ _ _ _ _ _ _ _ E Hqb) Hqb Hb) as Hqb'.
     destruct rb as [ob|].
     + injection H as H Hhit. eapply conc_b_done_d; [exact Pa|exact Hn|exact Hqa|exact Hqb'|exact H].
@@ -2124,13 +2096,12 @@ Proof.
       * eapply un_fin_d; [|exact Hq|exact Hq|exact H]. unfold dep_is. destruct k; reflexivity.
       * inv H. rewrite dwf_un. split; [unfold dep_is; destruct k; reflexivity|exact Hq].
     + intros d cx st st' tr r H Hq.
-      destruct st as [|c sn|ns sc sb|sa sb|vv|? ? ?];
+      destruct st as [|c sn|ns sc sb|sa sb|vv];
         [rewrite stop_fin in H; inv H; auto with calcd
         |simpl in H; inv H; auto with calcd
         |
         |rewrite stop_inert_st in H by exact I; inv H; auto with calcd
-        |simpl in H; inv H; auto with calcd
-        |rewrite stop_inert_st in H by exact I; inv H; auto with calcd].
+        |simpl in H; inv H; auto with calcd].
       rewrite dwf_un in Hq. destruct Hq as [Hn Hq].
       destruct (is_unst k) eqn:Hk.
       * apply is_unst_true in Hk. subst k. rewrite stop_un_unst in H. inv H. rewrite dwf_un. auto.
@@ -2148,13 +2119,12 @@ Proof.
            eapply un_fin_d; [exact Hn2|exact Hq'|exact Hq0|exact H].
         -- inv H. rewrite dwf_un. auto.
     + intros d cx st i o st' tr r hit H Hq.
-      destruct st as [|c sn|ns sc sb|sa sb|vv|? ? ?];
+      destruct st as [|c sn|ns sc sb|sa sb|vv];
         [rewrite leafev_fin in H; inv H; auto with calcd
         |simpl in H; inv H; auto with calcd
         |
         |rewrite leafev_inert_st in H by exact I; inv H; auto with calcd
-        |simpl in H; inv H; auto with calcd
-        |rewrite leafev_inert_st in H by exact I; inv H; auto with calcd].
+        |simpl in H; inv H; auto with calcd].
       rewrite dwf_un in Hq. destruct Hq as [Hn Hq].
       rewrite leafev_un in H. unfold leafev_un_body in H.
       destruct (child_ev (un_throw k) (un_catch k) s sc i (un_in k o) o cx) as [[[sc' tr1] r1] h1] eqn:Hs.
@@ -2203,13 +2173,12 @@ Proof.
            eapply a_done_d with (ns := mk_nst PFirst en); [exact Hk|exact Sb|reflexivity|exact Hqa|exact Ql|exact H].
         -- inv H. rewrite dwf_bin. split; [reflexivity|]. split; auto with calcd.
       * intros d cx st st' tr r H Hq.
-        destruct st as [|c sn|ns sa sb|sa sb|vv|? ? ?];
+        destruct st as [|c sn|ns sa sb|sa sb|vv];
           [rewrite stop_fin in H; inv H; auto with calcd
           |simpl in H; inv H; auto with calcd
           |
           |rewrite stop_inert_st in H by exact I; inv H; auto with calcd
-          |simpl in H; inv H; auto with calcd
-          |rewrite stop_inert_st in H by exact I; inv H; auto with calcd].
+          |simpl in H; inv H; auto with calcd].
         rewrite dwf_bin in Hq. destruct Hq as (Hn & Hqa & Hqb).
         rewrite stop_bin, Hk in H.
         destruct (ph ns).
@@ -2241,13 +2210,12 @@ Proof.
               eapply b_done_d with (ns := stopped_ns ns); [exact Hk|exact Hn|exact Q1|exact Q2|exact H].
            ++ inv H. rewrite dwf_bin. auto.
       * intros d cx st i o st' tr r hit H Hq.
-        destruct st as [|c sn|ns sa sb|sa sb|vv|? ? ?];
+        destruct st as [|c sn|ns sa sb|sa sb|vv];
           [rewrite leafev_fin in H; inv H; auto with calcd
           |simpl in H; inv H; auto with calcd
           |
           |rewrite leafev_inert_st in H by exact I; inv H; auto with calcd
-          |simpl in H; inv H; auto with calcd
-          |rewrite leafev_inert_st in H by exact I; inv H; auto with calcd].
+          |simpl in H; inv H; auto with calcd].
         rewrite dwf_bin in Hq. destruct Hq as (Hn & Hqa & Hqb).
         rewrite leafev_bin_seq in H by exact Hk.
         destruct (ph ns).
@@ -2289,26 +2257,24 @@ Proof.
         destruct (sthrows (Bin k a b)); [unfold start_thrown in H; injection H as <- <- <-; apply dwf_fin|].
         eapply start_conc_d; [exact Sa|exact Pa|exact Sb|exact H].
       * intros d cx st st' tr r H Hq.
-        destruct st as [|c sn|ns sa sb|sa sb|vv|? ? ?];
+        destruct st as [|c sn|ns sa sb|sa sb|vv];
           [rewrite stop_fin in H; inv H; auto with calcd
           |simpl in H; inv H; auto with calcd
           |
           |rewrite stop_inert_st in H by exact I; inv H; auto with calcd
-          |simpl in H; inv H; auto with calcd
-          |rewrite stop_inert_st in H by exact I; inv H; auto with calcd].
+          |simpl in H; inv H; auto with calcd].
         rewrite dwf_bin in Hq. destruct Hq as (Hn & Hqa & Hqb).
         rewrite stop_bin, Hk in H.
         destruct (own_stop ns).
         -- inv H. rewrite dwf_bin. auto.
         -- eapply stop_conc_d; [exact Pa|exact Pb|exact Hn|exact Hqa|exact Hqb|exact H].
       * intros d cx st i o st' tr r hit H Hq.
-        destruct st as [|c sn|ns sa sb|sa sb|vv|? ? ?];
+        destruct st as [|c sn|ns sa sb|sa sb|vv];
           [rewrite leafev_fin in H; inv H; auto with calcd
           |simpl in H; inv H; auto with calcd
           |
           |rewrite leafev_inert_st in H by exact I; inv H; auto with calcd
-          |simpl in H; inv H; auto with calcd
-          |rewrite leafev_inert_st in H by exact I; inv H; auto with calcd].
+          |simpl in H; inv H; auto with calcd].
         rewrite dwf_bin in Hq. destruct Hq as (Hn & Hqa & Hqb).
         rewrite leafev_bin_conc in H by exact Hk.
         eapply leafev_conc_d; [exact La|exact Lb|exact Pa|exact Pb|exact Hn|exact Hqa|exact Hqb|exact H].
@@ -2378,16 +2344,16 @@ Proof.
     apply (f_equal (fun x => snd (fst x))) in H. cbn [fst snd] in H. rewrite Hn in H. discriminate H.
   - split; [discriminate|].
     rewrite live_seq2 in HL by (try reflexivity; congruence). destruct HL as [_ HL].
-    destruct sb as [|cc sn|ns' sc sb'|? ?|?|? ? ?]; try contradiction HL.
+    destruct sb as [|cc sn|ns' sc sb'|? ?|?]; try contradiction HL.
     rewrite live_un in HL. destruct HL as (_ & _ & HL). unfold un_tok in HL. simpl in HL.
-    destruct sc as [|cc seen| | | |? ? ?]; try contradiction HL. destruct HL as [-> ->].
+    destruct sc as [|cc seen| | |]; try contradiction HL. destruct HL as [-> ->].
     unfold leafev_seq2 in H. rewrite unst_sched_child_ev in H. unfold b_done, seq_final in H. simpl in H.
     injection H as _ _ Ho _. destruct (saved ns); [left|right; split]; congruence.
   - split; [discriminate|].
     rewrite live_seq2 in HL by (try reflexivity; congruence). destruct HL as [_ HL].
-    destruct sb as [|cc sn|ns' sc sb'|? ?|?|? ? ?]; try contradiction HL.
+    destruct sb as [|cc sn|ns' sc sb'|? ?|?]; try contradiction HL.
     rewrite live_un in HL. destruct HL as (_ & _ & HL). unfold un_tok in HL. simpl in HL.
-    destruct sc as [|cc seen| | | |? ? ?]; try contradiction HL. destruct HL as [-> ->].
+    destruct sc as [|cc seen| | |]; try contradiction HL. destruct HL as [-> ->].
     unfold leafev_seq2 in H. rewrite unst_sched_child_ev in H. unfold b_done, seq_final in H. simpl in H.
     injection H as _ _ Ho _. destruct (saved ns); [left|right; split]; congruence.
 Qed.
@@ -2425,7 +2391,7 @@ Fixpoint pending (e : sexpr) (st : ost) : list nat :=
 
 Lemma live_pending e : forall tok st, live tok e st -> pending e st <> [].
 Proof.
-  induction e; intros tok st H; destruct st as [|cc ss|ns sa sb|sa sb|vv|? ? ?]; simpl in *; try contradiction;
+  induction e; intros tok st H; destruct st as [|cc ss|ns sa sb|sa sb|vv]; simpl in *; try contradiction;
     try (match type of H with _ = _ /\ _ => destruct H as [Hc _]; subst; discriminate end); try discriminate.
   - destruct H as (_ & _ & H). exact (IHe _ _ H).
   - destruct H as [_ H]. destruct (is_seq k).
